@@ -97,6 +97,12 @@ TemplateCount(m) == Cardinality({b \in 0..(Pow2(m) - 1) : IsAperiodic(b, m)})
 UniversalL(n) == IF n >= 1059061760 THEN 16 ELSE IF n >= 496435200 THEN 15 ELSE IF n >= 231669760 THEN 14 ELSE IF n >= 107560960 THEN 13
                  ELSE IF n >= 49643520 THEN 12 ELSE IF n >= 22753280 THEN 11 ELSE IF n >= 10342400 THEN 10 ELSE IF n >= 4654080 THEN 9
                  ELSE IF n >= 2068480 THEN 8 ELSE IF n >= 904960 THEN 7 ELSE 6
+\* LargeBinaryMatrixRank tests one matrix per size 64, 128, 256, ... while size^2 <= n
+LargeRankSizes(n) == LET RECURSIVE C(_)
+                         C(sz) == IF sz * sz <= n /\ sz <= 16384 THEN 1 + C(2 * sz) ELSE 0
+                     IN C(64)
+\* LinearComplexityScatter(n, step): sequence i (0-based) has ceil((n - i) / step) bits; they partition the n bits
+ScatterSize(n, step, i) == (n + step - 1 - i) \div step
 \* exact insufficient-data conditions of the tests that have one (test name, n, optional parameter)
 Insufficient(test, n, par) ==
   CASE test = "BlockFrequency" -> n < 100
@@ -105,6 +111,7 @@ Insufficient(test, n, par) ==
     [] test = "NonOverlappingTemplateMatching" -> n \div 8 < 4
     [] test = "Universal" -> n < 387840
     [] test = "LinearComplexity" -> par < 10 \/ par * 200 > n
+    [] test = "LargeBinaryMatrixRank" -> n < 64 * 64
     [] OTHER -> FALSE
 \* number of p-values a test returns when it has enough data (J = number of excursion cycles)
 NumPValues(test, n, par) ==
@@ -115,6 +122,8 @@ NumPValues(test, n, par) ==
     [] test = "Serial" -> 2 * (SerialMMax(n) - 1)
     [] test = "ApproximateEntropy" -> ApEnMMax(n) - 1
     [] test = "RandomWalk" -> IF par >= 500 THEN 2 + 8 + 18 ELSE 2
+    [] test = "LargeBinaryMatrixRank" -> LargeRankSizes(n)
+    [] test = "LinearComplexityScatter" -> 1
     [] OTHER -> 0
 
 (* ---------- AppendBit machine for the walk, checked against the definitions ---- *)
@@ -145,7 +154,13 @@ Block8(v) == [i \in 1..8 |-> (v \div Pow2(i - 1)) % 2]
 LongestRunTable8 == [k \in 1..4 |-> Cardinality({v \in 0..255 : Max2(1, Min2(4, LongestRunIn(Block8(v), 0, 8))) = k})]
 Table8Facts == LongestRunTable8 = <<55, 94, 59, 48>>
 \* ladder sanity (constant-level, evaluated once)
-LadderFacts == /\ BlockFrequencyM(100) = 20 /\ BlockFrequencyM(1599) = 20 /\ BlockFrequencyM(3200) = 64 /\ BlockFrequencyM(1000000) = 16384
+ScatterFacts == \A nn \in {1000, 1001, 1023, 1024} : \A st \in {1, 7, 32, 64} :
+                  LET RECURSIVE T(_)
+                      T(i) == IF i = st THEN 0 ELSE ScatterSize(nn, st, i) + T(i + 1)
+                  IN T(0) = nn
+LadderFacts == /\ LargeRankSizes(4095) = 0 /\ LargeRankSizes(4096) = 1 /\ LargeRankSizes(16383) = 1 /\ LargeRankSizes(16384) = 2
+               /\ LargeRankSizes(262144) = 4 /\ ScatterFacts
+               /\ BlockFrequencyM(100) = 20 /\ BlockFrequencyM(1599) = 20 /\ BlockFrequencyM(3200) = 64 /\ BlockFrequencyM(1000000) = 16384
                /\ TemplateCount(2) = 2 /\ TemplateCount(3) = 4 /\ TemplateCount(4) = 6 /\ TemplateCount(9) = 148
                /\ SerialMMax(100) = 3 /\ SerialMMax(1048576) = 17 /\ ApEnMMax(1048576) = 12
 =============================================================================
